@@ -255,3 +255,18 @@ M('c08-use-site-changed', ['C08'], Y23 + 'f1040.py', "                if v['11']
 M('c08-hsa-limit', ['C08'], Y23 + 'f8889.py', "'hsa_family_contribution_limit':     7750,", "'hsa_family_contribution_limit':     7300,", 'R8', 'last year\'s HSA family limit')
 M('c08-chain-moved-to-thresholds', ['C08'], Y22 + 'f1040_s2_need6251.py', "(103050.0 if i['1040.filing_status'] == filing_status.MarriedFilingSeparately else 206100.0)", "bp(i['1040.filing_status'])", None, 'inline status chain moved into a helper', 'silent',
   more=[(Y22 + 'f1040_s2_need6251.py', "        def need_6251(self, i, v):\n", "        def bp(fs):\n            return 103050.0 if fs == filing_status.MarriedFilingSeparately else 206100.0\n\n        def need_6251(self, i, v):\n")])
+
+# ------------------------------------------------------------------ C02
+M('c02-operands-swapped', ['C02'], Y23 + 'f1040.py', "FloatField('11', lambda s, i, v: v['9'] - v['10']),", "FloatField('11', lambda s, i, v: v['10'] - v['9']),", 'R2', 'subtraction operands swapped')
+M('c02-summand-dropped', ['C02'], Y23 + 'f1040.py', "v['1z'] + v['2b'] + v['3b'] + v['4b'] + v['5b'] + v['6b'] + v['7'] + v['8']", "v['1z'] + v['2b'] + v['3b'] + v['4b'] + v['5b'] + v['7'] + v['8']", None, 'dropping the gated (always zero) line 6b changes nothing', 'silent')
+M('c02-real-summand-dropped', ['C02'], Y23 + 'f1040.py', "v['1z'] + v['2b'] + v['3b'] + v['4b'] + v['5b'] + v['6b'] + v['7'] + v['8']", "v['1z'] + v['2b'] + v['3b'] + v['4b'] + v['6b'] + v['7'] + v['8']", 'R2', 'a summand (taxable pensions) dropped from total income')
+M('c02-min-to-max', ['C02'], Y23 + 'f1040_qualdiv_capgain_tax_wkst.py', "FloatField('10', lambda s, i, v: min(v['1'], v['4'])),", "FloatField('10', lambda s, i, v: max(v['1'], v['4'])),", 'R2', 'smaller-of turned into larger-of')
+M('c02-min-dropped', ['C02'], Y22 + 'f1040_qualdiv_capgain_tax_wkst.py', "FloatField('10', lambda s, i, v: min(v['1'], v['4'])),", "FloatField('10', lambda s, i, v: v['4']),", 'R2', 'smaller-of dropped (seed C02-B)')
+M('c02-rate', ['C02'], Y23 + 'f1040_qualdiv_capgain_tax_wkst.py', "FloatField('18', lambda s, i, v: v['17'] * 0.15),", "FloatField('18', lambda s, i, v: v['17'] * 0.20),", 'R2', 'wrong rate')
+M('c02-carry-neighbour', ['C02'], Y23 + 'f1040.py', "FloatField('8', lambda s, i, v: v['1040_s1.10'] if v['schedule_1_additional_income'] else None),", "FloatField('8', lambda s, i, v: v['1040_s1.9'] if v['schedule_1_additional_income'] else None),", 'R2', 'carried from the neighbouring line')
+M('c02-floor-dropped', ['C02'], Y23 + 'f1040.py', "FloatField('22', lambda s, i, v: max(0.0, v['18'] - v['21'])),", "FloatField('22', lambda s, i, v: v['18'] - v['21']),", 'R2', 'floor at zero dropped')
+M('c02-floor-misplaced', ['C02'], Y22 + 'f1040.py', "FloatField('22', lambda s, i, v: max(0.0, v['18'] - v['21'])),", "FloatField('22', lambda s, i, v: max(0.0, v['18']) - v['21']),", 'R2', 'misplaced parenthesis (seed C15-A)')
+M('c02-nc-wrong-line', ['C02'], Y23 + 'fnc_d_400.py', "v['25'] - v['19'] if v['25'] >= v['19'] else s.not_implemented()", "v['25'] - v['17'] if v['25'] >= v['19'] else s.not_implemented()", 'R2', 'NC overpayment uses line 17 for line 19 (seed C15-B)')
+M('c02-guard-flipped', ['C02'], Y23 + 'f1040.py', "FloatField('34', lambda s, i, v: (v['33'] - v['24']) if v['33'] > v['24'] else None),", "FloatField('34', lambda s, i, v: (v['33'] - v['24']) if v['33'] < v['24'] else None),", 'R2', 'overpayment computed when payments are LESS than tax')
+M('c02-reordered-summands', ['C02'], Y23 + 'f1040.py', "FloatField('14', lambda s, i, v: v['12'] + v['13']),", "FloatField('14', lambda s, i, v: float(v['13'] + v['12'])),", None, 'summands reordered and wrapped in float()', 'silent')
+M('c02-guarded-floor', ['C02'], Y23 + 'f1040.py', "FloatField('22', lambda s, i, v: max(0.0, v['18'] - v['21'])),", "FloatField('22', lambda s, i, v: v['18'] - v['21'] if v['18'] > v['21'] else 0.0),", None, 'floor written as a guarded subtraction', 'silent')
